@@ -126,11 +126,13 @@ CRON = {
             {"name": "random", "args": ["cron", "-mode", "random", "-seed", "{seed}", "-runs", "250", "-steps", "120"]},
             {"name": "random-std", "args": ["cron", "-mode", "random", "-seed", "{seed}", "-runs", "150", "-steps", "120", "-std"]},
             {"name": "random-system", "args": ["cron", "-mode", "random", "-seed", "{seed}", "-runs", "120", "-steps", "160", "-system"]},
+            {"name": "random-twin", "args": ["cron", "-mode", "random", "-seed", "{seed}", "-runs", "60", "-steps", "140", "-twin"]},
         ],
         "thorough": [
             {"name": "random", "args": ["cron", "-mode", "random", "-seed", "{seed}", "-runs", "4000", "-steps", "140"]},
             {"name": "random-std", "args": ["cron", "-mode", "random", "-seed", "{seed}", "-runs", "2000", "-steps", "140", "-std"]},
             {"name": "random-system", "args": ["cron", "-mode", "random", "-seed", "{seed}", "-runs", "1500", "-steps", "180", "-system"]},
+            {"name": "random-twin", "args": ["cron", "-mode", "random", "-seed", "{seed}", "-runs", "800", "-steps", "160", "-twin"]},
         ],
     },
     "monitor": {"module": "MonCron.tla", "cfg": "MonCron.cfg"},
@@ -237,7 +239,7 @@ FORMULAS = {
     "C17": ["C17_Immutable", "C17_Processable"],
     "C18": ["C18_Eval", "C18_DefaultAgrees", "C18_Deterministic", "C18_Subst"],
     "C19": ["C19_Layering", "C19_LKG"],
-    "C20": ["C20_Converges", "C20_Quiescent", "<every formula of C02, C05-C13, C15 on runs with injected faults or crashes>"],
+    "C20": ["C20_Converges", "C20_Quiescent", "C20_SameOutcome", "<every formula of C02, C05-C13, C15 on runs with injected faults or crashes>"],
     "C04": ["C04_" + x for x in _PASS],
     "C05": ["C05_Admission"],
     "C06": ["C06_Fifo", "C06_EnqueueNeverRefused", "C06_AllowNeverRefused", "C06_RefusedOnlyAtLimit", "C06_NoStuck", "C06_CronForbid"],
